@@ -1117,6 +1117,7 @@ class C12(PropertyCheck):
         "QipVerif.C12.discrete_channel_outside_small_gaps",
         "QipVerif.C12.no_small_gap_when_separated",
         "QipVerif.C12.compile_source_channels",
+        "QipVerif.C12.compile_source_end_to_end",
         "QipVerif.C12.tolerance_counterexample",
         "QipVerif.C12.maxstart_rounding_counterexample",
         # repaired gap test, gaps 0 or above the tolerance
@@ -1163,7 +1164,7 @@ class C12(PropertyCheck):
         "resolution of the schedule (class of the recorded float-resolution finding).  maxstart_rounding_counterexample: with "
         "time_tol relative to the largest START time (code before fixes/C12-5.patch) a start returned as 1 - 1e-10 before a pulse of "
         "length 1e4 makes the grid go backwards; relative to the largest END time the schedule is a rounded chain.  "
-        "compile_source_channels / schedule_unscheduled / schedule_scheduled: compile drops zero-duration instructions, keeps every "
+        "compile_source_channels / compile_source_end_to_end / schedule_unscheduled / schedule_scheduled: compile drops zero-duration instructions, keeps every "
         "(instruction, start) pair, sorts the starts and puts exactly the pulses labelled l on channel l.  "
         "Older code (kept as theorems about the model variants byTol / Sep): concatenate_channels ... every_channel_points_are_schedule "
         "under the scale hypothesis Sep, refuted without it by scale_counterexample, gap_counterexample, idle_only_counterexample.  "
